@@ -309,6 +309,47 @@ _DEF_PINS = {
     "1067": _SSR_H % ("386", "") + " [387 384 389]",
     "1068": _SSR_H % ("386", "") + " [387 384 390]",
 }
+# The remaining standard messages (network RTK corrections and residuals 1014-1017 / 1030 / 1031 / 1037-1039 /
+# 1303-1305, system parameters 1013, transformation and projection messages 1021-1027 / 1300-1302, physical reference
+# station 1032, FKP 1034 / 1035, the NavIC / BeiDou / QZSS / Galileo ephemerides 1041-1046).  I know these less
+# well by heart than the ones above; each was reviewed field by field against what I remember of RTCM 10403.3 and
+# its amendments, and in every one the fresh data fields appear in the order of their DF numbers, which is how the
+# standard numbers them.
+_DEF_PINS.update({
+    "1013": "002 003 051 052 053 054 [053 055 056 057]",
+    "1014": "002 059 072 058 060 061 062 063 064",
+    "1015": "002 059 072 065 066 060 061 067 [067 068 074 075 069]",
+    "1016": "002 059 072 065 066 060 061 067 [067 068 074 075 070 071]",
+    "1017": "002 059 072 065 066 060 061 067 [067 068 074 075 070 071 069]",
+    "1021": "002 143 [143 144] 145 [145 146] 147 148 149 150 151 152 153 154 155 156 157 158 159 160 161 162 166 167 168 169 "
+            "214 215",
+    "1022": "002 143 [143 144] 145 [145 146] 147 148 149 150 151 152 153 154 155 156 157 158 159 160 161 162 163 164 165 166 "
+            "167 168 169 214 215",
+    "1023": "002 147 190 191 192 193 194 195 196 197 198 [16 199 200 201] 212 213 216 217 051",
+    "1024": "002 147 190 191 202 203 204 205 206 207 208 [16 209 210 211] 212 213 216 217 051",
+    "1025": "002 147 170 171 172 173 174 175",
+    "1026": "002 147 170 176 177 178 179 180 181",
+    "1027": "002 147 170 182 183 184 185 186 187 188 189",
+    "1030": "002 224 003 223 006 [006 009 218 219 220 221 222]",
+    "1031": "002 225 003 223 035 [035 038 218 219 220 221 222]",
+    "1032": "002 003 226 021 025 026 027",
+    "1034": "002 003 240 006 [006 009 071 242 243 244 245]",
+    "1035": "002 003 241 035 [035 038 392 242 243 244 245]",
+    "1037": "002 059 072 233 066 060 061 234 [234 038 235 236 237]",
+    "1038": "002 059 072 233 066 060 061 234 [234 038 235 236 238 239]",
+    "1039": "002 059 072 233 066 060 061 234 [234 038 235 236 238 239 237]",
+    "1041": "002 " + " ".join(str(n) for n in range(516, 546)),
+    "1042": "002 " + " ".join(str(n) for n in range(488, 516)),
+    "1044": "002 " + " ".join(str(n) for n in range(429, 458)),
+    "1045": "002 252 289 290 291 " + " ".join(str(n) for n in range(292, 313)) + " 314 315 001_7",
+    "1046": "002 252 289 290 286 " + " ".join(str(n) for n in range(292, 314)) + " 316 317 287 288 001_2",
+    "1300": "002 562 [562 563] 564",
+    "1301": "002 143 [143 144] 145 [145 146] 147 148 547 548 549 550 551 552 553 554 555 556 557 558 559 560 561",
+    "1302": "002 565 [565 566] 567 149 568 [568 569 [569+1 570]]",
+    "1303": "002 571 003 223 572 [572 488 218 219 220 221 222]",
+    "1304": "002 573 003 223 574 [574 252 218 219 220 221 222]",
+    "1305": "002 575 003 223 576 [576 429 218 219 220 221 222]",
+})
 # MSM: header with the constellation's epoch field(s), masks, then one group per satellite column and per cell column
 _MSM_EPOCH = {107: "004", 108: "416 034", 109: "248", 110: "004", 111: "428", 112: "427", 113: "546"}
 _MSM_SATCOLS = {1: ["398"], 2: ["398"], 3: ["398"], 4: ["397", "398"], 5: ["397", "EXT", "398", "399"],
